@@ -1,5 +1,6 @@
 """C03: check configuration (PROP) and MANIFEST texts (TEXT)."""
 PROP = {'n_quick': 60,
+ 'mismatch_is_failing_input': True,   # the Coq specification IS the independent implementation: a model/implementation line difference is the failing input
  'n_thorough': 700,
  'audit': 1,
  'audit_maxlen': 9000,
@@ -27,19 +28,21 @@ PROP = {'n_quick': 60,
              'the sensitivity theorems are partial (top-level fields and sub-hash pre-images, collision extraction); SHA-256 outputs are 32 bytes (hypothesis Hlen)']}
 
 TEXT = {'text': 'Kernel-checked refinement of a faithful model of src/sighash.rs (three caches, Prevouts discipline, error order, documented panics) to a '
-         'declarative transcription of the Elements signing messages, for abstract hash functions and every transaction: C03_legacy_refines, '
+         'declarative transcription of the Elements signing messages, for abstract hash functions and every transaction: C03_legacy_refines (digest level, whole domain) / C03_legacy_refines_message, '
          'C03_segwit_refines, C03_taproot_refines (for every existing input index, script code, amount, spent-output list, annex, leaf hash, '
          'code-separator position, genesis hash and every one of the 6 ECDSA / 7 Schnorr types the written pre-image equals the specified message and the '
          'digest its (double / tagged) hash), the documented panics occur exactly where consensus defines nothing, the convenience entry points and '
          'Prevouts::One agree with taproot_sighash/All; irrelevance of uncommitted fields for every numeric hash type (script_sig and witness stacks in '
          'all three algorithms, every witness field in legacy/segwit, outputs under NONE, other inputs and their prevouts under ANYONECANPAY, other outputs '
          'under SINGLE, other inputs\' sequences under NONE/SINGLE in legacy/segwit); partial sensitivity by collision extraction (in particular taproot '
-         'ALL/DEFAULT commits to the output witnesses). Finding F17 is derived: with SIGHASH_SINGLE and no matching output the library returns '
-         'sha256d(0100..00) where consensus signs 0100..00 (C03_legacy_single_bug_digests / _refuted). Each run compares digests and pre-image bytes of the '
+         'ALL/DEFAULT commits to the output witnesses). With SIGHASH_SINGLE and no matching output the writer emits 0100..00 and the digest IS 0100..00 as in consensus '
+         '(C03_legacy_single_out_of_range; finding F17 — the constant was hashed — was repaired by b8dcccb). Each run compares digests and pre-image bytes of the '
          'real crate with the extracted model and with the specification on generated transactions and the repository\'s pinned vectors.',
  'design_ref': 'DESIGN.md section 6, C03 (and open question Q1)',
  'note': 'Trusted: Coq kernel; the specification transcription itself (no Elements Core offline) with Q1 as an explicit parameter; hand-written Gallina '
-         'model tied to the code by per-run correspondence of digests and pre-images; abstract hashes; regenerated constants. Known finding F17 '
-         '(legacy SIGHASH_SINGLE out-of-range digest is hashed once too often) prints KNOWN-FINDING; sensitivity is partial as declared in DESIGN.',
+         'model tied to the code by per-run correspondence of digests and pre-images; abstract hashes; regenerated constants. Finding F17 '
+         '(legacy SIGHASH_SINGLE out-of-range digest hashed once too often) is fixed (b8dcccb) and a recurrence is a violation (predicate '
+         'legacy-single-oob-digest). There is no independent implementation besides the Coq specification, so a model/implementation line difference is '
+         'itself the failing input (mismatch_is_failing_input). Sensitivity is partial as declared in DESIGN.',
  'technique': 'Coq proof (refinement of a state-monad implementation model to a declarative specification; irrelevance by congruence over explicit '
               'relations; collision extraction) + per-run correspondence of digests and pre-image writers, pinned vectors, implementation-side consistency predicates'}
